@@ -13,7 +13,7 @@ From SV Require Import model.FreshSkip.
 From SV Require Import proofs.FreshProofs.
 From SV Require Import proofs.FreshSkipProofs.
 From SV Require Import model.FreshStatTypes gen.GenFreshStat model.FreshStat.
-From SV Require Import proofs.FreshStatProofs proofs.FreshStatLink.
+From SV Require Import proofs.FreshStatProofs proofs.FreshStatLink proofs.FreshStatFinding.
 Import ListNotations.
 Open Scope N_scope.
 
@@ -594,6 +594,29 @@ Theorem C03_refreshed_forgery_is_not_noticed :
   code_eqb (code_of_disk (fs_run (Some wit_c0) wit_forgery)) (code_of_hash (record_of wit_c0)) = false /\
   inp_entry_with shortcut_full (record_of wit_c0) (fs_run (Some wit_c0) wit_forgery) = (false, 0, false).
 Proof. exact forgery_not_noticed. Qed.
+
+(* NOT TRUE (finding C03-unreadable-input, open): "an input that changes underneath a running step
+   makes it fail and stops further dispatch" for EVERY way the post-run hash computation can end.
+   When the input is no longer a readable regular file (replaced by a directory, permissions
+   withdrawn) FileHash.refreshed raises inside the hash thread; Executor._run_work_thread turns that
+   into "run failed, result None", the path of a cancelled computation (do_xend ... true): the step
+   FAILS but unexpected_input_changes is False, and with keep_going the scheduler keeps dispatching.
+   Replayed through the real serve() (c03_repl.unreadable_input_system: START of an independent step
+   after the FAIL).  GenFreshStat.unreadable_input_reported says whether compute_inp_hashes reports
+   such an input as changed (the proposed fix) instead of raising. *)
+Definition C03_changed_input_stops_dispatch_full : Prop := changed_input_stops_dispatch_full.
+
+Theorem C03_changed_input_stops_dispatch_refuted_by_failed_hash_thread :
+  c_run (xb unreadable_x) <> None /\ changed_inputs (xb unreadable_x) = [1] /\
+  keep_going (xb unreadable_x) = true /\
+  (let x' := fst (do_xend unreadable_x 2 true true) in
+   c_state (xb x') = SS_FAILED /\ draining (xb x') = false) /\
+  (let x' := fst (do_xend unreadable_x 2 true false) in
+   c_state (xb x') = SS_FAILED /\ draining (xb x') = true).
+Proof. exact unreadable_input_witness. Qed.
+
+Theorem C03_changed_input_stops_dispatch_full_refuted : ~ C03_changed_input_stops_dispatch_full.
+Proof. exact changed_input_stops_dispatch_full_refuted. Qed.
 
 (* Non-vacuity: an honest history that uses every operation (utime, chmod, the same bytes moved in
    with the recorded mtime, a write in place, unlink, other bytes moved in with the recorded stat
